@@ -439,7 +439,8 @@ func GenEtypes(r Rand, key string) LibEntry {
 	return e
 }
 
-var realmPool = []string{"EXAMPLE.COM", "TEST.GOKRB5", "ATHENA.MIT.EDU", "CORP.EXAMPLE.ORG", "SUB.TEST.GOKRB5", "R1", "Dev.Example.Net", "realm.lower", "X-Y.EXAMPLE", "A.B.C.D.E"}
+var realmPool = []string{"EXAMPLE.COM", "TEST.GOKRB5", "ATHENA.MIT.EDU", "CORP.EXAMPLE.ORG", "SUB.TEST.GOKRB5", "R1", "Dev.Example.Net", "realm.lower", "X-Y.EXAMPLE", "A.B.C.D.E",
+	"example.com", "Test.Gokrb5", "r1"} // realm names are case sensitive: these are other realms than their upper-case namesakes
 var hostPool = []string{"kdc", "kdc1", "kdc2", "kerberos", "kerberos-1", "kadmin", "master", "srv-a", "srv-b", "k", "kpw", "host9"}
 var domPool = []string{"example.com", "test.gokrb5", "mit.edu", "corp.example.org", "dev.mit.edu", "x", "lab.local", "a.b.c.d.e"}
 
